@@ -1,10 +1,14 @@
 """C15 — MinGenSet and MinSetCover return true optima whenever one exists.
 
 Proof: FP/Props/C15.lean — the MILP of `_create_solver(k)` is feasible iff a generating multiset of size k exists
-(`mgs_feasible_iff`), the constructor's preprocessing keeps the generating multisets for every multiplicity
+(`mgs_feasible_iff`; partition constraints of any lengths: `mgs_feasible_iff_partition`, `mgs_partition_sound_full`),
+the constructor's preprocessing keeps the generating multisets for every multiplicity
 (`preprocess_sound`; complements are dropped only for multiplicity 1 since fix 20bda28), a search over a range returns
 the optimum of that range (`mgs_returns_optimum`), the range of the code (fix 6c30e65) contains the optimum
-(`mgs_range_contains_optimum`, without partition constraints; [1,2,4]/7: `mgs_range_regression_124`); `mscLP`'s optima
+(`mgs_range_contains_optimum` without, `mgs_range_contains_optimum_partition` with partition constraints that are
+number partitions of `total` — non-empty, non-negative, integral for weight_type=int; both extra hypotheses are
+necessary: `mgs_range_empty_constraint`, `mgs_range_fractional_constraint`, `mgs_range_first_statement_false`;
+[1,2,4]/7: `mgs_range_regression_124`); `mscLP`'s optima
 are the minimum-weight covers (`msc_opt_transfer`), `subset_weights=None` means unit weights (`msc_default_unit_weights`).
 Ties: K2 LP-dump equality of `MinGenSet._create_solver(k)` (+ the preprocessing) and `MinSetCover`'s LP with the
 Lean generators; K3 the search trace of `MinGenSet.solve` under forced statuses (reused from C13).
@@ -17,10 +21,12 @@ from fpv.common import frac, qstr
 from props import c13
 
 THEOREMS = ["FP.Props.C15." + t for t in
-            ["mgs_sound", "mgs_sound_eff", "mgs_partition_sound", "mgs_complete", "mgs_complete_multiset",
-             "mgs_effMult_eq", "mgs_feasible_iff", "mgs_cap_loses_solutions", "mgs_pi_bound_loses_solutions", "complement_removal_sound",
+            ["mgs_sound", "mgs_sound_eff", "mgs_partition_sound", "mgs_partition_sound_full", "mgs_complete",
+             "mgs_complete_multiset", "mgs_effMult_eq", "mgs_feasible_iff", "mgs_feasible_iff_partition", "mgs_cap_loses_solutions", "mgs_pi_bound_loses_solutions", "complement_removal_sound",
              "preprocess_sound", "complement_removal_unsound_mult", "preprocess_keeps_complements_mult", "genset_exists",
-             "mgs_returns_optimum", "mgs_range_contains_optimum", "mgs_range_misses_optimum",
+             "mgs_returns_optimum", "mgs_range_contains_optimum", "mgs_range_contains_optimum_partition",
+             "mgs_range_empty_constraint", "mgs_range_fractional_constraint", "mgs_range_first_statement_false",
+             "mgs_range_misses_optimum",
              "mgs_search_finds_least", "mgs_range_regression_124", "msc_sound", "msc_complete", "msc_objective", "msc_opt_transfer",
              "msc_default_unit_weights"]]
 IMPORTS = ["FP.Props.C15"]
@@ -30,7 +36,8 @@ RULE = ("MinGenSet: a hidden multiset of 2-4 values (ints, halves or eighths) wi
         "non-trivial iff the brute-force optimum is >= 2. MinSetCover: universes of <= 6 elements, <= 8 random subsets, "
         "int/float/zero/negative/None weights; non-trivial iff a cover exists and needs >= 2 subsets.")
 MODEL_SCOPE = ("modelled: MinGenSet.__init__ preprocessing, _create_solver/_encode_symmetry_breaking/"
-               "_encode_partition_constraints (mgsLP), the k-loop of solve (stopSearch), MinSetCover._encode_set_cover (mscLP); "
+               "_encode_partition_constraints (mgsLP), the k-loop of solve (stopSearch) with its range "
+               "range(lb, max(lb, len(set(numbers)) + 1 + sum(len(c) - 1)) + 1) (mgsHi), MinSetCover._encode_set_cover (mscLP); "
                "not modelled: what HiGHS does inside one solve, float rounding of returned values, get_solution plumbing "
                "(checked by the oracle)")
 TRUSTED = ["HiGHS reports kOptimal iff the MILP is feasible (and then an optimal vertex), kInfeasible iff it is not"]
